@@ -62,6 +62,10 @@ Msg == E.m
 TOpen == IsEvent("open") /\ Accept(Open(s))
 TRx == IsEvent("rx") /\ Accept(Rx(s, Msg, [welcome |-> E.u.welcome, challenge |-> E.u.challenge], E.beh))
 TLost == IsEvent("lost") /\ Accept(Lost(s))
+RECURSIVE SubscribeAll(_, _)
+SubscribeAll(r, hs) ==
+  IF hs = <<>> THEN r
+  ELSE LET x == Subscribe(r.s, Head(hs)) IN SubscribeAll(Mk(x.s, [x.re EXCEPT !.out = r.re.out \o x.re.out]), Tail(hs))
 TApi ==
   /\ IsEvent("api")
   /\ Accept(CASE E.name \in {"call", "publish"} /\ E.bad # "" ->
@@ -70,10 +74,8 @@ TApi ==
               [] E.name = "cancel" -> CancelCall(s, E.req)
               [] E.name = "publish" -> Publish(s, E.ack)
               [] E.name = "subscribe" -> Subscribe(s, E.h)
-              \* subscribe(obj) with two decorated methods = two Subscribe steps in one call
-              [] E.name = "subscribe_obj" ->
-                   LET r1 == Subscribe(s, E.hs[1]) r2 == Subscribe(r1.s, E.hs[2]) IN
-                     Mk(r2.s, [r2.re EXCEPT !.out = r1.re.out \o r2.re.out])
+              \* subscribe(obj) with decorated methods = one Subscribe step per decorator, in one call
+              [] E.name = "subscribe_obj" -> SubscribeAll(Mk(s, NoRe), E.hs)
               [] E.name = "unsubscribe" -> Unsubscribe(s, E.sub, E.h, E.pos)
               [] E.name = "register" -> Register(s)
               [] E.name = "unregister" -> Unregister(s, E.reg)
